@@ -32,6 +32,7 @@ type Program struct {
 	addrTaken []*ssa.Function
 	addrDone  bool
 	globalLens map[*ssa.Global]int64
+	mapConst   map[*ssa.Global]bool
 }
 
 type keyDesc struct {
@@ -227,6 +228,59 @@ func (p *Program) GlobalSliceLen(g *ssa.Global) (int64, bool) {
 	}
 	n, ok := p.globalLens[g]
 	return n, ok
+}
+
+// GlobalMapConst: the global map is filled only by the package initialiser (no MapUpdate or store elsewhere),
+// so a lookup is a pure function of the key.
+func (p *Program) GlobalMapConst(g *ssa.Global) bool {
+	p.mu.Lock()
+	defer p.mu.Unlock()
+	if p.mapConst == nil {
+		p.mapConst = map[*ssa.Global]bool{}
+		bad := map[*ssa.Global]bool{}
+		isMap := func(gg *ssa.Global) bool {
+			_, ok := gg.Type().(*types.Pointer).Elem().Underlying().(*types.Map)
+			return ok
+		}
+		for fn := range p.allFuncs {
+			inInit := fn.Name() == "init" && fn.Synthetic != ""
+			for _, b := range fn.Blocks {
+				for _, in := range b.Instrs {
+					switch x := in.(type) {
+					case *ssa.Store:
+						if gg, ok := x.Addr.(*ssa.Global); ok && isMap(gg) {
+							if inInit {
+								p.mapConst[gg] = true
+							} else {
+								bad[gg] = true
+							}
+						}
+					case *ssa.MapUpdate:
+						if ld, ok := x.Map.(*ssa.UnOp); ok {
+							if gg, ok := ld.X.(*ssa.Global); ok && !inInit {
+								bad[gg] = true
+							}
+						}
+					case ssa.CallInstruction:
+						// a global map passed to any call outside init could be mutated there
+						if !inInit {
+							for _, a := range x.Common().Args {
+								if ld, ok := a.(*ssa.UnOp); ok {
+									if gg, ok := ld.X.(*ssa.Global); ok && isMap(gg) {
+										bad[gg] = true
+									}
+								}
+							}
+						}
+					}
+				}
+			}
+		}
+		for gg := range bad {
+			delete(p.mapConst, gg)
+		}
+	}
+	return p.mapConst[g]
 }
 
 // BoundTarget maps a bound-method wrapper to the method it wraps (other functions map to themselves);
